@@ -97,6 +97,15 @@ def shapes() -> dict[str, tuple[dict, list]]:
     S["manyout"] = ({"g": twelve, "u": one, "v": one, "w": one}, [("g", "9", "u"), ("g", "11", "u"), ("g", "0", "v"), ("g", "10", "w")])
     S["manyin"] = ({"s": one, "g": twelve, "m": one, "u": one}, [("s", "0", "g"), ("s", "0", "m"), ("g", "9", "u")])
     S["gpumix"] = ({"g": one, "c1": one, "c2": one, "k": one}, [("g", "0", "k"), ("c1", "0", "k"), ("c2", "0", "k")])
+    # several GPU tasks become computable together while a GPU worker and its GPU-less neighbour are both idle
+    S["gpufan"] = ({"s": one, "g1": one, "g2": one, "g3": one, "k": one},
+                   [("s", "0", "g1"), ("s", "0", "g2"), ("s", "0", "g3"), ("g1", "0", "k"), ("g2", "0", "k"), ("g3", "0", "k")])
+    S["gpusrc2"] = ({"g1": one, "g2": one, "c1": one, "k": one}, [("g1", "0", "k"), ("g2", "0", "k"), ("c1", "0", "k")])
+    # two components: a small one whose host migrates while one of its workers is still busy, and one with a backlog of computable tasks
+    S["fanvee"] = ({"s": one, "m1": one, "m2": one, "a": one, "b": one, "c": one, "k": one},
+                   [("s", "0", "m1"), ("s", "0", "m2"), ("a", "0", "k"), ("b", "0", "k"), ("c", "0", "k")])
+    S["twofan"] = ({"s": one, "m1": one, "m2": one, "p": one, "q1": one, "q2": one, "q3": one, "q4": one, "q5": one},
+                   [("s", "0", "m1"), ("s", "0", "m2")] + [("p", "0", f"q{i}") for i in range(1, 6)])
     S["fanout4"] = ({"s": one, "m1": one, "m2": one, "m3": one, "m4": one}, [("s", "0", "m1"), ("s", "0", "m2"), ("s", "0", "m3"), ("s", "0", "m4")])
     S["multiout3"] = ({"g": ["0", "1", "2"], "u": one, "v": one}, [("g", "0", "u"), ("g", "2", "u"), ("g", "1", "v")])
     S["sixtasks"] = ({"a": one, "b": one, "c": one, "d": one, "p": one, "q": one},
@@ -153,6 +162,17 @@ def quick_instances() -> list[Instance]:
         outs, edges = S[shape]
         extra = {"gpu_workers": ["h1.w1"], "gpu_tasks": ["g"]} if shape == "gpumix" else {}
         I.append(Instance(f"{shape}_{nh}x{nw}_{tag}", outs, edges, cluster(nh, nw), ext, trace_only=True, **extra))
+    for shape, nh, nw, ext in [("fanvee", 1, 2, [("k", "0"), ("m1", "0")]), ("fanvee", 2, 2, [("k", "0")]), ("twofan", 2, 2, [("q5", "0"), ("m2", "0")]),
+                               ("twofan", 1, 2, [("q1", "0")])]:
+        outs, edges = S[shape]
+        I.append(Instance(f"{shape}_{nh}x{nw}_busymig", outs, edges, cluster(nh, nw), ext, trace_only=True))
+    # mixed hosts: what Executor registers with one GPU and two workers (w0 has it, w1 has none), next to a GPU-less host
+    for shape, nh, nw, gw, gt in [("gpufan", 1, 2, ["h0.w0"], ["g1", "g2", "g3"]), ("gpufan", 2, 2, ["h0.w0"], ["g1", "g2", "g3"]),
+                                  ("gpufan", 2, 2, ["h0.w1", "h1.w0"], ["g1", "g2"]), ("gpusrc2", 1, 2, ["h0.w0"], ["g1", "g2"]),
+                                  ("gpusrc2", 2, 2, ["h1.w1"], ["g1", "g2"])]:
+        outs, edges = S[shape]
+        I.append(Instance(f"{shape}_{nh}x{nw}_gpu{len(gw)}{gw[0][1]}{gw[0][-1]}", outs, edges, cluster(nh, nw), [("k", "0")], trace_only=True,
+                          gpu_workers=gw, gpu_tasks=gt))
     return I
 
 
@@ -161,7 +181,7 @@ def thorough_instances() -> list[Instance]:
     I = list(quick_instances())
     seen = {i.name for i in I}
     for shape, (outs, edges) in S.items():
-        if shape in ("empty", "manyout", "manyin", "sixtasks", "gpumix", "fanout4"):
+        if shape in ("empty", "manyout", "manyin", "sixtasks", "gpumix", "fanout4", "gpufan", "gpusrc2", "fanvee", "twofan"):
             continue
         alld = [(t, o) for t in outs for o in outs[t]]
         snk = sinks(outs, edges)
